@@ -7,7 +7,7 @@ RULE = (
     "Hypothesis draws a requestor user script (associate, echo/store/find/sleep ops, then release/abort/idle), acceptor handler behaviours "
     "(return, delay, raise, abort), an acceptor-side user action from another thread at a generated time (release() or abort() of the active "
     "association - release collision, abort during release), an optional abort from a second requestor-side thread, small virtual timeouts and a "
-    "schedule (fifo/random/PCT + preemptions + clock nudges). Both ends are real pynetdicom AEs under the E4 cooperative scheduler. A second family ('pair-at-notification') takes an otherwise undisturbed association and calls abort() from another thread exactly while one chosen notification (released / aborted / established / accepted / first DIMSE or ACSE message) of one side is being delivered. Oracle at "
+    "schedule (fifo/random/PCT + preemptions + clock nudges). Both ends are real pynetdicom AEs under the E4 cooperative scheduler. A second family ('pair-at-notification') takes an otherwise undisturbed association and calls abort() from another thread exactly while one chosen notification (released / aborted / established / accepted / first DIMSE or ACSE message) of one side is being delivered. A third family ('pair-idle-release') sets network_timeout_response = 'A-RELEASE' on one side and lets that side's user release/abort within +-0.3 s of the idle timer running out. Oracle at "
     "quiescence: each side has exactly one of released/aborted/rejected; the outcomes are compatible (released<->released; an abort on one side "
     "<-> aborted on the other; rejected<->rejected); each side fired EVT_RELEASED+EVT_ABORTED+EVT_REJECTED exactly once; is_established is false; "
     "every thread has finished and both sockets are closed; total virtual time <= sum of the timeouts used + 12 s of scripted delays. "
@@ -125,7 +125,7 @@ def _brief(sc):
     return {"acc": {k: v for k, v in sc["acceptor"].items() if k != "kind"}, "req": sc["requestors"][0], "timeouts": sc["timeouts"], "schedule": sc["schedule"]}
 
 
-CHECKS = {"pair": check_pair, "pair-at-notification": check_pair}  # the alias gives the second family its own Hypothesis seed
+CHECKS = {"pair": check_pair, "pair-at-notification": check_pair, "pair-idle-release": check_pair}  # the alias gives the second family its own Hypothesis seed
 
 
 def run(ctx):
@@ -166,3 +166,29 @@ def run(ctx):
         return sc
 
     ctx.hyp("pair-at-notification", at_notification(), 60 if ctx.quick else 600)
+
+    # the network timeout answered with A-RELEASE instead of A-ABORT (Association.network_timeout_response) on one side, and that side's user
+    # (requestor script / server-side thread) releasing or aborting around the moment the idle timer runs out
+    @st.composite
+    def idle_release(draw):
+        sc = dict(draw(pair))
+        quiet = {"echo": {"delay": 0, "do": None}, "store": {"delay": 0, "do": None}, "find": {"n": 1, "delay": 0, "do": None, "do_at": 0}}
+        net = draw(st.sampled_from([2, 4]))
+        sc["timeouts"] = {"acse": 2, "dimse": 2, "network": net, "connection": 2}
+        side = draw(st.sampled_from(["requestor", "requestor", "acceptor"]))
+        when = round(net + draw(st.sampled_from([-0.3, -0.2, -0.1, 0.0, 0.1, 0.2, 0.3])), 2)
+        end = draw(st.sampled_from([["release"], ["release"], ["abort"], ["idle"]]))
+        ops = draw(st.lists(st.sampled_from([["echo"], ["find"]]), max_size=1))
+        acc = {"kind": "pynetdicom", "handlers": quiet, "shutdown_at": None, "abort_on": None}
+        rq = {"kind": "pynetdicom", "abort_at": None, "abort_on": None}
+        if side == "requestor":
+            rq["nt_response"] = "A-RELEASE"
+            rq["script"] = [["associate"]] + ops + [["sleep", when], end]
+        else:
+            acc["nt_response"] = "A-RELEASE"
+            acc["release_at"] = round(when + 0.6, 2)  # association established around t = 0.4..0.6
+            rq["script"] = [["associate"]] + ops + [["idle"]]
+        sc["acceptor"], sc["requestors"] = acc, [rq]
+        return sc
+
+    ctx.hyp("pair-idle-release", idle_release(), 40 if ctx.quick else 400)
